@@ -17,6 +17,8 @@ ctl=${VERIF_CTL:-/nonexistent}
 log(){ [ -n "$VERIF_CMDLOG" ] && echo "$1 $EPOCHREALTIME $$ $key" >> "$VERIF_CMDLOG"; }
 ctlval(){ cat "$ctl/$key.$1" 2>/dev/null || cat "$ctl/$proc.$1" 2>/dev/null || cat "$ctl/ALL.$1" 2>/dev/null; }
 log S
+# what bash was really asked to execute for this task (independent of what scipipe recorded)
+[ -n "$VERIF_CMDLOG" ] && echo "C 0 $$ $key $(tr '\0' ' ' < /proc/$PPID/cmdline | base64 -w0)" >> "$VERIF_CMDLOG"
 fault=$(ctlval fault)
 [ "$fault" = exit_before_write ] && exit 3
 nouts=${#outs[@]}
